@@ -1,6 +1,7 @@
 import Driver.TabD
 import IGVerif.Spec.Shape
 import Driver.GenSup
+import Driver.C16
 /-! Property oracles evaluated on the implementation's table (rows as key ↦ cell maps). -/
 namespace Drv
 open Lean IGVerif
@@ -138,7 +139,14 @@ def idPoolTab : Array String := #["123", "7", "a.b", "S.1.2", "x9", "0", "AB12cd
 
 /-- statements for the tabular family: simple with combinations, supported nesting, pairs -/
 def genTabStmt (i : Nat) : G (Stmt × String) := do
-  match i % 4 with
+  match i % 5 with
+  | 4 => do
+    -- private properties; the open C16 finding (removal after root collapse) is exercised by C16's own check only
+    let mut s ← genC16Stmt true
+    for _ in [0:20] do
+      if kfC16 s = "" then break
+      s ← genC16Stmt true
+    pure (s, "private")
   | 0 => do let s ← genC01 { suffixes := false, maxDepth := 3, maxComps := 4 }; pure (s, "simple")
   | 1 => do let s ← genSupC02 2; pure (s, "nested")
   | 2 => do let s ← genNestedSup { depth := 1, pairs := true }; pure (s, "pairs")
